@@ -167,6 +167,9 @@ type concReplay struct {
 
 // concDispatch handles the worker sub-command and replays of the concurrent part. handled=false: not ours.
 func concDispatch(id string, ctx Ctx) (rc int, handled bool) {
+	if rc, ok := lrDispatch(id, ctx); ok {
+		return rc, true
+	}
 	mk, ok := concRegistry[id]
 	if !ok {
 		return 0, false
